@@ -13,6 +13,7 @@ M2  exported histories executed on the real code in this one process: Perturb = 
     only with explicit initial parameters, because a seeded draw of sample indices depends on the order by
     construction.  The default GMM initialisation is also compared with the explicit
     KMeansMachine(n_gaussians, random_state=r) trainer the model says it is."""
+import json
 import random
 
 import numpy as np
@@ -65,10 +66,14 @@ def run(ck):
     plan = []       # (run name, [steps], [variant or None per step])
     total = 0
     for name, r, n in runs:
-        recs = r.records
+        recs = sorted(r.records, key=lambda x: json.dumps(x, sort_keys=True))
         total += len(recs)
         if len(recs) > n:
-            recs = rng.sample(recs, n)
+            # histories in which an object is fitted again are kept with priority (up to a third of the sample)
+            reuse = [x for x in recs if any(t[0] == "Fit" and len(t) > 12 and t[12] == "used" for t in x["h"])]
+            keep = rng.sample(reuse, min(len(reuse), n // 3))
+            rest = [x for x in recs if x not in keep]
+            recs = keep + rng.sample(rest, n - len(keep))
         for rec in recs:
             steps = [dm.parse_step(t) for t in rec["h"]]
             for _ in range(1 if quick else 2):
@@ -78,10 +83,10 @@ def run(ck):
                     "checked by TLC)" % (len(plan), total))
     probs = dm.Problems(ck.seed)
 
-    def attempt(s, v, where):
+    def attempt(s, v, where, used=None):
         """One fit on the real code; an exception raised by the library is a violation."""
         try:
-            return dm.fit(em, probs, s["e"], s["c"], v, s["d"], s["o"], s["p"], s["r"])
+            return dm.fit(em, probs, s["e"], s["c"], v, s["d"], s["o"], s["p"], s["r"], used=used)
         except Exception as ex:   # noqa: BLE001 - any exception of a legitimate public call is a verdict
             import traceback
             ck.violation("M2:Determinism:ImplementationRaised",
@@ -153,6 +158,7 @@ def run(ck):
 
     # ---------------------------------------------------------------- the histories
     fits = 0
+    reused = {}
     for name, steps, variants in plan:
         trace = []
         bad = False
@@ -166,10 +172,19 @@ def run(ck):
                 trace.append(["PerturbDraw"])
                 continue
             trace.append(["Fit", describe(s, v)])
+            # a "used" object: the one an earlier step of this history (same estimator, configuration, seed) fitted
+            used = None
+            if s.get("ob") == "used":
+                prev = [q for q in steps[:i] if q["a"] == "Fit" and (q["e"], q["c"], q["r"]) == (s["e"], s["c"], s["r"])]
+                used = prev[-1] if prev else None
+                trace[-1][1]["object"] = "used before on problem %d (order %d, relabelling %d)" % (used["d"], used["o"], used["p"]) \
+                    if used else "fresh"
+            if used:
+                reused[s["e"] + ":" + v] = reused.get(s["e"] + ":" + v, 0) + 1
             g0 = dm.global_state()
             dm.GAP[0] = i + 1          # the caller uses the global generator between construction and fit
             try:
-                got = attempt(s, v, {"history": trace})
+                got = attempt(s, v, {"history": trace}, used=used)
             finally:
                 dm.GAP[0] = 0
             g1 = dm.global_state()
@@ -206,6 +221,7 @@ def run(ck):
                        ["Fit", t[1]["e"], t[1]["variant"], "order %d" % t[1]["o"], "relabel %d" % t[1]["p"],
                         "seed %d" % t[1]["r"]] for t in trace], "verdict": "bitwise equal to the references"})
     ck.extra["fits_in_histories"] = fits
+    ck.extra["fits_on_used_objects"] = reused
     ck.extra["global_stream"] = stream
     if stream["not_as_modelled"]:
         ck.notes.append("the effect of %d fits on the global generator is not the one Determinism.tla describes "
